@@ -537,6 +537,30 @@ def py_next(ctx, it, *default):
     raise Unsupported('next() of %r' % (it,))
 
 
+def py_slice(ctx, *a):
+    return slice(*a)
+
+
+def py_iter(ctx, x):
+    return IterObj(iterate(ctx, x))
+
+
+class IterObj:
+    def __init__(self, items):
+        self.items, self.pos = list(items), 0
+
+    def sym_next(self, ctx):
+        if self.pos >= len(self.items):
+            raise PyRaise('StopIteration')
+        self.pos += 1
+        return self.items[self.pos - 1]
+
+    def sym_iterate(self, ctx):
+        r = self.items[self.pos:]
+        self.pos = len(self.items)
+        return r
+
+
 def py_noop(ctx, *a, **k):
     return None
 
@@ -589,7 +613,7 @@ BUILTINS = {
     'all': py_all, 'any': py_any, 'tuple': py_tuple, 'list': py_list, 'range': py_range, 'enumerate': py_enumerate,
     'zip': py_zip, 'reversed': py_reversed, 'sorted': py_sorted, 'int': py_int, 'float': py_float, 'bool': py_bool,
     'divmod': py_divmod, 'getattr': py_getattr, 'hasattr': py_hasattr, 'print': py_noop, 'str': py_str, 'repr': py_str,
-    'set': py_set, 'frozenset': py_set, 'dict': py_dict, 'callable': py_callable, 'next': py_next, 'type': py_type,
+    'set': py_set, 'frozenset': py_set, 'dict': py_dict, 'callable': py_callable, 'next': py_next, 'type': py_type, 'slice': py_slice, 'iter': py_iter,
 }
 # type objects usable as isinstance targets map to themselves
 TYPE_OF_BUILTIN = {'int': int, 'float': float, 'bool': bool, 'tuple': tuple, 'list': list, 'str': str, 'dict': dict,
